@@ -303,6 +303,11 @@ fn run(ctx: &Ctx, rep: &Report) {
         rng.shuffle(&mut evrs);
         evrs.truncate(cap);
     }
+    // triples whose components contain the separators themselves, chosen so that different triples
+    // print the same text: equality and order are functions of the components, not of the text
+    for t in [("", "1-2", "3"), ("", "1", "2-3"), ("", "1-2-3", ""), ("", "1", "2"), ("", "1-2", ""), ("", "1", "2-"), ("0", "1", "2"), ("", "0:1", "2"), ("0", "1-2", "3"), ("1", "2:3", "4"), ("1:2", "3", "4"), ("", "1:2-3", "4"), ("", "a", "b-c"), ("", "a-b", "c")] {
+        evrs.push((t.0.to_string(), t.1.to_string(), t.2.to_string()));
+    }
     let ne = evrs.len();
     rep.count("evr_triples", ne as u64);
     rep.nontrivial_many(evrs.iter().map(|t| hash_bytes(format!("{}:{}-{}", t.0, t.1, t.2).as_bytes())));
